@@ -185,6 +185,30 @@ def _sign_transform(chk, tr: FuncInfo):
         seen += 1
         ok = any(reads_container(p, "modes_sign") and p.has_op("binop", "Mult") for p in ps)
         chk.check(ok, "SIGN.group.transform", tr, node, why="transformed scores are not multiplied by the stored modes_sign")
+        # ... exactly once on the way to each result (a second multiplication, e.g. folded into the rotation matrix, undoes or
+        # scrambles the first)
+        worst = 0
+        for p in ps:
+            k = 0
+            for i, o in enumerate(p.ops):
+                if o.kind == "binop" and o.name == "Mult" and o.other is not None and any(reads_container(q, "modes_sign") for q in ff.eval_in(o.frame, o.other, spine_only=True)):
+                    k += 1
+            worst = max(worst, k)
+        chk.check(worst <= 1, "SIGN.group.transform.once", tr, node, construct="modes_sign is applied once on every way to a transformed result",
+                  why=f"the stored modes_sign multiplies a value {worst} times on one of its ways to the output (e.g. folded into the rotation matrix and applied to the projections again)")
+        # modes_sign is stored in the order of the SORTED modes (it is re-indexed together with every other result when
+        # the model is sorted): it multiplies the projections after they have been re-sorted, not before (a sign folded
+        # into the rotation matrix is applied in rotation order and lands on the wrong modes once the order changes)
+        for p in ff.paths(e, spine_only=True, follow=True):
+            pos = [i for i, o in enumerate(p.ops) if o.kind == "method" and o.name == "isel"
+                   and any(reads_container(q, "idx_modes_sorted") for a in [call_kwargs(o.node).get("mode")] if a is not None for q in ff.eval_in(o.frame, a, spine_only=True))]
+            if not pos:
+                continue
+            after = [o for o in p.ops[pos[-1] + 1:] if o.kind == "binop" and o.name == "Mult" and o.other is not None
+                     and any(reads_container(q, "modes_sign") for q in ff.eval_in(o.frame, o.other, spine_only=True))]
+            chk.check(bool(after), "SIGN.group.transform.order", tr, p.ops[pos[-1]].node, construct="modes_sign multiplies the projections after the re-sort",
+                      why="the stored modes_sign (kept in sorted-mode order) is not applied to the re-sorted projections: applied before the re-sort it flips the wrong modes "
+                          "whenever sorting changes the order")
     chk.require(seen >= 1, f"{tr.qualname}: rotated projections not found")
 
 
